@@ -183,6 +183,51 @@ def run(ctx):
         rep.check(from_disk and not from_report, "C11.R5", "segment-evidence:from-disk", "the digested frames are the frames read from the segment file",
                   "the segment digest is computed from %s: comparing it with the manifest no longer says anything about the frames physically present in the segment" % (
                       "the recovery report" if from_report else "something other than the segment file"), site=ev.loc(ev.block_line(b)))
+    # ---- R6 the retention horizon is the start of the OLDEST retained epoch.  Commits of an unknown epoch are skipped only below
+    # that horizon (pruned history) and rejected above it.  The oldest retained epoch is the first closed one; the active epoch
+    # is the fallback when no closed epoch is retained.  Both spellings are accepted: `closed.first()..or_else(|| active..)` (the
+    # active read sits in the or_else closure whose receiver reads closed_epochs) and `match closed.first() { Some.., None => active }`.
+    rep.rule("C11.R6", "the unknown-epoch skip horizon prefers the oldest retained closed epoch; the active epoch's start is only the fallback")
+    rwc = prog.fn(CW + "reconcile_writer_epoch_closures")
+    LED = CW + "WriterEpochLedger"
+    ok_pref, seen_alt = False, False
+    bodies_ = [rwc] + [prog.fns[c] for c in prog.closures_in(rwc.id)]
+    for g in bodies_:
+        for bi, t in g.calls():
+            c_ = g.callee_of(t) or ""
+            if re.search(r"option::Option(::)?<.*>::(or_else|or|unwrap_or_else|map_or_else|xor)$", c_) and len(t["args"]) >= 2:
+                recv = chain_field_reads(g, t["args"][0])
+                alt = chain_field_reads(g, t["args"][1])
+                names_r = {f_ for (a_, f_) in recv if a_ == "WriterEpochLedger"}
+                names_a = {f_ for (a_, f_) in alt if a_ == "WriterEpochLedger"}
+                if {"closed_epochs", "active_epoch"} <= (names_r | names_a) and any(f_ == "started_at_lsn" for (a_, f_) in recv | alt):
+                    seen_alt = True
+                    if "closed_epochs" in names_r and "active_epoch" not in names_r and "active_epoch" in names_a:
+                        ok_pref = True
+    if not seen_alt:
+        # match form: the active_epoch read feeding started_at_lsn is reached only through the None edge of a test on closed_epochs.first()
+        og_ = rwc.origins()
+        none_edges, act_reads = [], []
+        for bi, b in enumerate(rwc.blocks):
+            for st_ in b["st"]:
+                if st_[0] == "a" and st_[2]["r"] == "disc" and st_[2].get("adt", "").endswith("Option"):
+                    if any(x == ("WriterEpochLedger", "closed_epochs") for x in chain_field_reads(rwc, {"c": st_[2]["p"]})):
+                        for bj, b2 in enumerate(rwc.blocks):
+                            t2 = b2["t"]
+                            if t2["t"] == "sw" and op_place(t2["o"]) is not None and op_place(t2["o"])[0] == st_[1][0]:
+                                vals = {v: tg for v, tg in t2["v"]}
+                                none_edges.append((bj, vals.get("0", t2["ow"])))
+                                seen_alt = True
+        for bi, pl, line in places_read_in(rwc):
+            fs_ = field_steps(pl)
+            if any(x[0] == LED and x[2] == "active_epoch" for x in fs_) and any(x[2] == "started_at_lsn" for x in fs_):
+                act_reads.append(bi)
+        if none_edges and act_reads:
+            starts = [tg for (sw_, tg) in none_edges]
+            ok_pref = all(rwc.path([0], [b_], avoid_edges=set(none_edges)) is None for b_ in act_reads)
+    rep.check(seen_alt and ok_pref, "C11.R6", "epoch-horizon:oldest-retained-epoch-first", "the horizon is the oldest retained closed epoch's start, the active epoch's only as a fallback",
+              "reconcile_writer_epoch_closures takes the skip horizon from the active epoch even when closed epochs are retained (or the preference could not be established): commits of an "
+              "epoch the ledger never admitted that lie between the two starts are skipped instead of rejected", site=rwc.loc())
     rs = prog.fn(CW + "read_segment_bytes")
     oks, errs = ok_return_blocks(rs)
     # the torn_tail flag is element 2 of the returned tuple
